@@ -50,8 +50,8 @@ TRUSTED_BASE = [
     "message parsing/rendering (dns.message, C03) maps the wire stream to the rrset lists that both sides consume",
 ]
 ASSUMPTIONS = [
-    "TTL and class are outside the Lean model (zone = set of (owner, type+covers, rdata)); TTL equality with the target version is checked by the direct oracle only",
-    "generated zones contain no CNAME, so the CNAME/other-data exclusion of dns.node (C10) is never exercised",
+    "class is outside the Lean model (zone = set of (owner, type+covers, rdata, ttl))",
+    "generated versions are valid zones (one TTL per rrset, a CNAME never next to other data, singleton types hold one rdata); faulty streams may break that on the way and the model follows dns.node's exclusion and dns.rdataset's TTL/singleton rules",
     "TSIG on transfers and timeouts are outside the model; end of stream is modelled as EOFError",
     "faults that are undetectable by construction of the protocol (e.g. a dropped non-SOA record of an AXFR) must only be atomic and agree with the model; only the detectable classes named in the theorems must raise",
 ]
@@ -140,7 +140,7 @@ class World:
         for rd in rs:
             tk, d = self.rdkey(rs.rdtype, rs.covers, rd)
             ds.append(d)
-        return f"{i}:{tk}:{','.join(ds)}"
+        return f"{i}:{tk}:{int(rs.ttl)}:{','.join(ds)}"
 
     def enc_msg(self, m) -> str:
         q = "-"
@@ -156,11 +156,11 @@ class World:
             for rds in node.rdatasets:
                 for rd in rds:
                     tk, d = self.rdkey(rds.rdtype, rds.covers, rd)
-                    out.add((i, tk, int(d.split(".")[0]), int(d.split(".")[1])))
+                    out.add((i, tk, int(rds.ttl), int(d.split(".")[0]), int(d.split(".")[1])))
         return out
 
     def enc_keys(self, ks) -> str:
-        return ";".join(f"{a}:{b}:{c}.{d}" for a, b, c, d in sorted(ks)) or "-"
+        return ";".join(f"{a}:{b}:{t}:{c}.{d}" for a, b, t, c, d in sorted(ks)) or "-"
 
     def enc_names(self) -> str:
         return ";".join(enc_labels(n.labels) for n in self.names)
@@ -233,6 +233,15 @@ class FakeTCP:
         self.buf = b"".join(struct.pack("!H", len(x)) + x for x in wires)
         self.sent = b""
 
+    def __enter__(self):
+        return self
+
+    def __exit__(self, *a):
+        return False
+
+    def connect_ex(self, address):
+        return 0
+
     def send(self, data):
         self.sent += data
         return len(data)
@@ -255,6 +264,9 @@ class FakeUDP(socket.socket):
         if not self._wires:
             raise EOFError("EOF")
         return self._wires.pop(0), ("192.0.2.53", 53)
+
+    def connect_ex(self, address):
+        return 0
 
 
 def state_str(inb) -> str:
@@ -351,13 +363,15 @@ class ZoneCache:
 
 
 ZC = ZoneCache()
-VARIANT = {"fix": None}
+VARIANT = {"fix": 1}  # the model of the code as it is (surplus refused before commit, 3feda1c)
 
 
 def eval_case(ctx: Ctx, c: dict, collect=None):
     k = c.get("kind", "xfr")
     if k == "xfr":
         return eval_xfr(ctx, c, collect)
+    if k == "glue":
+        return eval_glue(ctx, c)
     if k == "mkq":
         return eval_mkq(ctx, c)
     if k == "scmp":
@@ -409,7 +423,7 @@ def eval_xfr(ctx: Ctx, c: dict, collect=None):
     ctx.count("outcome." + res)
     # ---- model line
     req = c["req"]
-    fix = VARIANT["fix"] if VARIANT["fix"] is not None else 0
+    fix = VARIANT["fix"]
     names_first = [w.enc_msg(m) for m in msgs]  # interns names before the table is printed
     op = (f"c13.run fix={fix} tr={0 if trace is None else 1} o={enc_labels(w.eff.labels)} t={int(dns.rdatatype.from_text(req['rdtype']))} "
           f"s={'none' if req['serial'] is None else req['serial']} u={1 if req['udp'] else 0} N=%s "
@@ -461,6 +475,133 @@ def eval_xfr(ctx: Ctx, c: dict, collect=None):
         ZC.drop()
 
 
+def eval_glue(ctx: Ctx, c: dict):
+    """dns.query.inbound_xfr itself, sockets scripted: which query, UDP first, TCP retry on UseTCP"""
+    rep = {"kind": "glue", "case": c}
+    w, zone = ZC.get(c)
+    before = full_dump(zone, w.origin)
+    keys_before = w.zone_keys(zone)
+    qd = c["query"]
+    try:
+        if qd is None:
+            q = None
+            rdtype = dns.xfr.make_query(zone)[0].question[0].rdtype
+            qenc = "none"
+        else:
+            q, _ = dns.xfr.make_query(zone, serial=qd["serial"])
+            if qd.get("qtype"):
+                q.question[0].rdtype = dns.rdatatype.from_text(qd["qtype"])
+            if qd.get("strip"):
+                q = dns.message.make_query(w.origin, "IXFR")  # an IXFR query that announces no serial
+            rdtype = q.question[0].rdtype
+            auth = "none"
+            for rs in q.authority:
+                if rs.rdtype == SOA:
+                    auth = str(rs[0].serial)
+            qenc = f"{int(rdtype)}:{auth}"
+    except Exception as e:
+        ctx.count("gen.unbuildable:" + type(e).__name__)
+        return
+    is_ixfr = rdtype == IXFR
+    fake = {"req": {"rdtype": "IXFR" if is_ixfr else "AXFR", "serial": None, "udp": False}, "via": "wire"}
+    umsgs, uwires = build_messages(w, dict(fake, msgs=c["udp"]))
+    tmsgs, twires = build_messages(w, dict(fake, msgs=c["tcp"]))
+    used = {"udp": 0, "tcp": 0}
+
+    def fake_make_socket(af, type, source=None):
+        if type == socket.SOCK_DGRAM:
+            used["udp"] += 1
+            s = FakeUDP(socket.AF_INET, socket.SOCK_DGRAM)
+            s.script(uwires)
+            return s
+        used["tcp"] += 1
+        return FakeTCP(twires)
+
+    saved = dns.query.make_socket
+    dns.query.make_socket = fake_make_socket
+    signal.signal(signal.SIGALRM, _alarm)
+    signal.alarm(3)
+    res = "ok"
+    try:
+        dns.query.inbound_xfr("192.0.2.53", zone, query=q, udp_mode=dns.query.UDPMode(c["mode"]))
+    except Hang:
+        res = "hang"
+    except BaseException as e:  # noqa: BLE001
+        res = "err:" + err_class(e)
+    finally:
+        signal.alarm(0)
+        dns.query.make_socket = saved
+    after = full_dump(zone, w.origin)
+    keys_after = w.zone_keys(zone)
+    locked = getattr(zone, "_write_txn", None) is not None
+    u = "|".join(w.enc_msg(m) for m in umsgs) or "-"
+    t = "|".join(w.enc_msg(m) for m in tmsgs) or "-"
+    op = (f"c13.glue o={enc_labels(w.eff.labels)} q={qenc} mode={c['mode']} N=%s Z={w.enc_keys(keys_before)} U={u} T={t}")
+    op = op % w.enc_names()
+    zs = "=" if keys_after == keys_before else w.enc_keys(keys_after)
+    if res != "hang":
+        ctx.corr(op, f"R={res} Z={zs}", c)
+    exp = c.get("expect", {})
+    ctx.count(f"glue.{exp.get('what', '?')}.{res}")
+    what = f"inbound_xfr {c['zk']}{'/rel' if c['rel'] else ''} mode={c['mode']} {exp.get('what')}: "
+    if res == "hang":
+        ctx.fail("C13/inbound_xfr/hang", what + "did not return within 3 s", rep)
+    if res != "ok" and after != before:
+        ctx.fail("C13/inbound_xfr/error-after-commit", what + f"{res} was raised but the zone changed", rep)
+    if locked:
+        ctx.fail("C13/inbound_xfr/transaction-left-open", what + f"{res}: the zone's write transaction was left open", rep)
+    if exp.get("class") == "valid":
+        if res != "ok":
+            ctx.fail("C13/inbound_xfr/valid-raises/" + exp.get("what", "?"), what + f"raised {res}", rep)
+        elif after != records_dump(w, exp["target"]):
+            ctx.fail("C13/inbound_xfr/zone-differs/" + exp.get("what", "?"), what + "zone differs from the target version", rep)
+        if exp.get("tcp_used") is not None and (used["tcp"] > 0) != exp["tcp_used"]:
+            ctx.fail("C13/inbound_xfr/retry/" + exp.get("what", "?"),
+                     what + f"TCP attempts={used['tcp']} UDP attempts={used['udp']}, expected tcp_used={exp['tcp_used']}", rep)
+    elif exp.get("class") == "must-raise":
+        if res == "ok":
+            ctx.fail("C13/inbound_xfr/fault-accepted/" + exp.get("what", "?"), what + "accepted without error", rep)
+        elif exp.get("err") and res != "err:" + exp["err"]:
+            ctx.fail("C13/inbound_xfr/fault-wrong-error/" + exp.get("what", "?"), what + f"expected {exp['err']}, got {res}", rep)
+    if after != before or locked or res == "hang":
+        ZC.drop()
+
+
+def glue_cases(rng, st):
+    """dns.query.inbound_xfr around a valid IXFR chain"""
+    case, recs, o = st["case"], st["recs"], st["o"]
+    base = {"kind": "glue", "zk": case["zk"], "rel": case["rel"], "origin": o, "v0": case["v0"]}
+    serial = case["req"]["serial"]
+    full = to_msgs(rng, recs, [len(recs)], "IXFR", o)
+    trunc = to_msgs(rng, recs[:1], [1], "IXFR", o)
+    tcp = to_msgs(rng, recs, rand_sizes(rng, len(recs), empties=False), "IXFR", o)
+    tgt = st["target"]
+    qs = [{"serial": serial}] + ([None] if serial != 0 else [])
+    for q in qs:
+        def mk(mode, udp, tcpm, exp):
+            return dict(base, query=q, mode=mode, udp=udp, tcp=tcpm, expect=exp)
+        yield mk(1, trunc, tcp, {"class": "valid", "what": "usetcp-then-tcp", "target": tgt, "tcp_used": True})
+        yield mk(2, trunc, tcp, {"class": "must-raise", "what": "usetcp-only", "err": "UseTCP"})
+        yield mk(rng.choice([1, 2]), full, tcp, {"class": "valid", "what": "udp-complete", "target": tgt, "tcp_used": False})
+        yield mk(0, trunc, tcp, {"class": "valid", "what": "never-udp", "target": tgt, "tcp_used": True})
+        bad = [dict(m) for m in trunc]
+        bad[0]["rcode"] = 5
+        yield mk(1, bad, tcp, {"class": "must-raise", "what": "udp-refused-no-retry", "err": "TransferError"})
+        yield mk(1, [], tcp, {"class": "must-raise", "what": "udp-silent"})
+        yield mk(1, trunc, tcp[:-1], {"class": "must-raise", "what": "tcp-ends-early"})
+        ax = axfr_stream(rng, st["chain"][-1])
+        yield mk(1, trunc, to_msgs(rng, ax, rand_sizes(rng, len(ax), empties=False), "IXFR", o),
+                 {"class": "valid", "what": "usetcp-then-axfr-style", "target": tgt, "tcp_used": True})
+    ax = axfr_stream(rng, st["chain"][-1])
+    axm = to_msgs(rng, ax, rand_sizes(rng, len(ax), empties=False), "AXFR", o)
+    yield dict(base, query={"serial": None}, mode=rng.choice([0, 1, 2]), udp=trunc, tcp=axm,
+               expect={"class": "valid", "what": "axfr-query", "target": tgt, "tcp_used": True})
+    yield dict(base, query={"serial": serial or 1, "qtype": "SOA"}, mode=1, udp=trunc, tcp=tcp,
+               expect={"class": "must-raise", "what": "query-not-xfr", "err": "ValueError"})
+    yield dict(base, query={"serial": serial or 1, "strip": True}, mode=1, udp=trunc, tcp=tcp,
+               expect={"class": "must-raise", "what": "ixfr-query-without-soa", "err": "KeyError"})
+
+
 def eval_mkq(ctx: Ctx, c: dict):
     rep = {"kind": "mkq", "case": c}
     w = World(c["origin"], c["rel"])
@@ -491,7 +632,7 @@ def eval_mkq(ctx: Ctx, c: dict):
             ctx.fail("C13/make_query/extract-differs", f"make_query(serial={ser}) announced {s} but extract_serial_from_query returns {x}", rep)
         # the serial announced must be the zone's when asked for (serial=0)
         if ser == 0:
-            zs = [k[2] for k in ks if k[0] == 0 and k[1] == 6]
+            zs = [k[3] for k in ks if k[0] == 0 and k[1] == 6]
             want = zs[0] if zs else None
             if s != want:
                 ctx.fail("C13/make_query/serial-differs", f"make_query(serial=0) on a zone with serial {want} announced {s}", rep)
@@ -534,6 +675,10 @@ def gen_rdata(rng, o, t):
         return '"' + rng.choice(["t1", "t2", "hello world", "v=spf1 -all"]) + '"'
     if t == "RRSIG":
         return f"{rng.choice(['A', 'NS'])} 8 2 300 20300101000000 20200101000000 {rng.range(1, 3)} {o} AAAA"
+    if t == "CNAME":
+        return rng.choice([f"target{rng.range(1, 3)}.{o}", "alias.other.test.", f"www.{o}"])
+    if t == "NSEC":
+        return f"{rng.choice(['a', 'z', 'm'])}.{o} A RRSIG NSEC"
     raise ValueError(t)
 
 
@@ -573,19 +718,29 @@ def own(rng, o, names):
 
 def mutate(rng, v: Version, names, nchanges):
     v = v.copy()
-    types = ["A", "A", "AAAA", "NS", "MX", "TXT", "RRSIG"]
+    types = ["A", "A", "AAAA", "NS", "MX", "TXT", "RRSIG", "CNAME", "CNAME", "NSEC"]
     for _ in range(nchanges):
         m = rng.below(7)
         keys = [k for k in v.sets if not (k[0] == v.o.lower() and k[1] == "NS")]
         if m <= 2 or not keys:
             n = own(rng, v.o, names)
             t = rng.choice(types)
+            if t == "CNAME" and n.lower() == v.o.lower():
+                t = "A"
             k = (n.lower(), t)
             v.spell.setdefault(n.lower(), n)
             ttl, rds = v.sets.get(k, (rng.choice([60, 300, 3600]), []))
             rd = gen_rdata(rng, v.o, t)
-            if rd not in rds:
+            if t in ("CNAME", "NSEC"):
+                rds = [rd]  # singleton types
+            elif rd not in rds:
                 rds = rds + [rd]
+            # a valid zone never holds a CNAME next to other data (NSEC may stay)
+            if t == "CNAME":
+                for k2 in [k2 for k2 in v.sets if k2[0] == n.lower() and k2[1] not in ("CNAME", "NSEC")]:
+                    del v.sets[k2]
+            elif t != "NSEC":
+                v.sets.pop((n.lower(), "CNAME"), None)
             v.sets[k] = (ttl, rds)
         elif m == 3:
             k = rng.choice(keys)
@@ -956,22 +1111,9 @@ def gen_scmp(rng):
 
 def case_key(c):
     if c.get("kind", "xfr") != "xfr":
-        return json.dumps(c, sort_keys=True)
+        return json.dumps(c, sort_keys=True, default=str)
     return (c["zk"], c["rel"], c["origin"], c["req"]["rdtype"], c["req"]["serial"], c["req"]["udp"], c.get("via"),
             json.dumps(c["msgs"]), len(c["v0"]))
-
-
-def detect_variant(ctx: Ctx, witness: dict):
-    """which variant of the D11 decision point does the code implement? (DESIGN §6): replay the witness on
-    the implementation alone; the model is then asked for that variant everywhere"""
-    w = World(witness["origin"], witness["rel"])
-    zone = make_zone(w, witness["zk"], witness["v0"])
-    before = full_dump(zone, w.origin)
-    msgs, wires = build_messages(w, witness)
-    _, res, _ = run_impl(zone, w, witness, msgs, wires)
-    changed = full_dump(zone, w.origin) != before
-    VARIANT["fix"] = 1 if (res != "ok" and not changed) else 0
-    ctx.extra["d11_variant"] = "intended (surplus refused before commit)" if VARIANT["fix"] else "as shipped (commit, then FormError)"
 
 
 def generate(ctx: Ctx, scale: float, rng, budget_s: float):
@@ -1001,24 +1143,32 @@ def generate(ctx: Ctx, scale: float, rng, budget_s: float):
         ctx.count("streams")
         ctx.count("stream.len.%s" % ("<=8" if len(st["recs"]) <= 8 else "<=20" if len(st["recs"]) <= 20 else "<=50" if len(st["recs"]) <= 50 else ">50"))
         ctx.count("chain.steps.%d" % (len(st["chain"]) - 1))
+        if any(r[2] == "CNAME" for r in st["recs"]):
+            ctx.count("stream.has-cname")
+        for a, b in zip(st["chain"], st["chain"][1:]):
+            for (n, t) in b.sets:
+                if t == "CNAME" and any(k[0] == n and k[1] not in ("CNAME", "NSEC") for k in a.sets):
+                    ctx.count("step.data-to-cname")
+                if t not in ("CNAME", "NSEC") and (n, "CNAME") in a.sets:
+                    ctx.count("step.cname-to-data")
+                if (n, t) in a.sets and a.sets[(n, t)][0] != b.sets[(n, t)][0]:
+                    ctx.count("step.ttl-change")
         for c in valid_cases(rng, st, 4):
             ctx.case(case_key(c), sample=c if len(st["recs"]) < 10 else None)
             eval_case(ctx, c)
         for c in fault_cases(rng, st, every=(len(st["recs"]) <= 40)):
             ctx.case(case_key(c))
             eval_case(ctx, c)
+        if st["shape"] == "ixfr" and i % 2 == 0:
+            for c in glue_cases(rng, st):
+                ctx.case(case_key(c))
+                eval_case(ctx, c)
     ctx.extra["streams_generated"] = i
 
 
 def run(ctx: Ctx):
     ZC.drop()
-    VARIANT["fix"] = None
     corpus = sorted(glob.glob(os.path.join(VERIF, "corpus", "C13", "*.json")))
-    wit = [p for p in corpus if os.path.basename(p).startswith("d11")]
-    if wit:
-        detect_variant(ctx, json.load(open(wit[0])))
-    else:
-        VARIANT["fix"] = 0
     for p in corpus:
         c = json.load(open(p))
         ctx.case(("corpus", p))
@@ -1028,7 +1178,7 @@ def run(ctx: Ctx):
     rng = ctx.rng.fork(ctx.seed + 101)
     # budgets are relative to now: waiting for the shared lake lock must not eat the generation time
     if ctx.tier == "quick":
-        generate(ctx, 1, rng, ctx.elapsed() + 40)
+        generate(ctx, 1, rng, ctx.elapsed() + 33)
     else:
         generate(ctx, 20, rng, ctx.elapsed() + 700)
 
@@ -1043,8 +1193,6 @@ def search(ctx: Ctx):
 
 def replay(ctx: Ctx, obj: dict):
     ZC.drop()
-    if VARIANT["fix"] is None:
-        VARIANT["fix"] = 0
     eval_case(ctx, obj["case"])
     return [f.what for f in ctx.failures]
 
